@@ -14,6 +14,8 @@ Inc(k, v) == [op |-> "compute", k |-> k, tag |-> 0, v |-> v, pl |-> 0, f |-> "in
 CNone(k) == [op |-> "compute", k |-> k, tag |-> 0, v |-> 0, pl |-> 0, f |-> "none"]
 Clear == [op |-> "clear", k |-> 1, tag |-> 0, v |-> 0, pl |-> 0, f |-> "-"]
 Iter == [op |-> "iter", k |-> 1, tag |-> 0, v |-> 0, pl |-> 0, f |-> "-"]
+Retain(f) == [op |-> "retain", k |-> 1, tag |-> 0, v |-> 0, pl |-> 0, f |-> f]
+RetainF(f) == [op |-> "retain_force", k |-> 1, tag |-> 0, v |-> 0, pl |-> 0, f |-> f]
 Reserve(n) == [op |-> "reserve", k |-> 1, tag |-> 0, v |-> 0, pl |-> n, f |-> "-"]
 E(k, v) == [k |-> k, v |-> v, pl |-> 0]
 
@@ -43,6 +45,11 @@ ProgClr2 == (1 :> <<Clear>>) @@ (2 :> <<Iter>>) @@ (3 :> <<Ins(3, 31)>>)
 \* ---- reserve(): try_presize racing the lazy initialisation and an insert-driven resize
 ProgRsv1 == (1 :> <<Reserve(2)>>) @@ (2 :> <<Ins(1, 11), Ins(2, 12)>>) @@ (3 :> <<Reserve(1), Get(1)>>)
 ProgRsv2 == (1 :> <<Reserve(3)>>) @@ (2 :> <<Ins(2, 21)>>) @@ (3 :> <<Ins(3, 31), Get(1)>>)
+\* ---- retain: the predicate rejects odd keys while their values are replaced / they are removed and re-inserted;
+\*      and across a resize (the conditional removal meets forwarding markers)
+ProgRt1 == (1 :> <<Retain("even")>>) @@ (2 :> <<Ins2(1, 21), Rem(3)>>) @@ (3 :> <<Ins(3, 31), Get(1)>>)
+ProgRt2 == (1 :> <<Retain("none")>>) @@ (2 :> <<Ins(2, 21)>>) @@ (3 :> <<Ins2(1, 31)>>)
+ProgRt3 == (1 :> <<RetainF("even")>>) @@ (2 :> <<Ins2(1, 21)>>) @@ (3 :> <<Rem(1), Ins(1, 31)>>)
 Init3 == <<E(1, 10), E(2, 20), E(3, 30)>>
 Init1 == <<E(1, 10)>>
 Init2 == <<E(1, 10), E(2, 20)>>
